@@ -222,6 +222,7 @@ def run(ctx):
                      for w_ in ('app', 'dst') for f_ in ('recv', 'send')] +
                     [('closed-app-streaming-dst', lambda: tg.closed_app_streaming_dst(ctx, rng, 'C02'))] +
                     [('stop-after-eof-%s' % w_, (lambda w_=w_: tg.stop_after_eof(ctx, rng, 'C02', w_))) for w_ in ('dst', 'app')] +
+                    [('eof-meets-connect-%d' % n, (lambda n=n: tg.eof_meets_connect(ctx, rng, 'C02', n))) for n in (1, 3000)] +
                     [('connect-with-followers-%d-%d' % (n, k), (lambda n=n, k=k: tg.connect_with_followers(ctx, rng, 'C02', n, k)))
                      for n, k in ((0, 1), (300, 1), (0, 3), (5000, 2))]):
         ins, outs = fn()
